@@ -25,6 +25,7 @@ ENTRY = {
         "tests": [
             T("TestC11Sched", (150, 4), (1200, 16)),
             T("TestC11LogAppend", (150, 2), (3000, 4)),
+            T("TestC11MetaSave", (100, 2), (1200, 4)),
         ],
         "required_classes": [
             "family/keyvalue", "family/dag", "family/neuronjson", "family/labelmap", "family/annotation",
@@ -32,7 +33,7 @@ ENTRY = {
             "sched/random", "sched/pingpong", "sched/blocks", "sched/last-first", "sched/first-only",
             "sched/released-by-quiescence-timer",       # a goroutine waited for a lock held by a parked one and the controller moved on
             "sched/background-goroutine-scheduled",     # background goroutines (index aggregation, sync handlers) were scheduled too
-            "contended/yes", "log-append/switched", "log-append/first-appends-race-to-open", "log-append/topic",
+            "contended/yes", "log-append/switched", "log-append/first-appends-race-to-open", "log-append/topic", "meta-save/switched-with-two-acknowledged",
             # shapes whose requests still run inside each other's instrumented windows
             "keyvalue/post-post-same-key/interleaved", "keyvalue/post-delete-same-key/interleaved", "keyvalue/post-post-two-keys/interleaved",
             "labelmap/mutate-mutate-same-label/interleaved",
@@ -42,7 +43,7 @@ ENTRY = {
             "neuronjson/post-post-disjoint-fields/contended", "neuronjson/post-delete/contended",
             "dag/newversion-newversion/contended", "dag/branch-branch-same-name/contended", "dag/newinstance-same-name/contended",
         ],
-        "rule": "TestC11LogAppend: 2-4 goroutines append 1-4 generated records each to one file log (Append or TopicAppend, optionally racing to open it) under the same scheduler parked at the header / payload / sync write points; every acknowledged record must be read back exactly once, intact, each appender's in its own order.  TestC11Sched: rapid-generated (scenario, schedule) pairs.  Scenario = family (keyvalue, dag, neuronjson, labelmap, annotation), a deterministic sequential setup on a "
+        "rule": "TestC11MetaSave: 2-3 concurrent repo-level requests (note, log, commit, new instance, branch) on one repo under the scheduler parked at the store write points (so a request can be held between serializing the repo record and writing it), then the stores are closed and reopened: every acknowledged change must show before and after the reopen, and the requests must return.  TestC11LogAppend: 2-4 goroutines append 1-4 generated records each to one file log (Append or TopicAppend, optionally racing to open it) under the same scheduler parked at the header / payload / sync write points; every acknowledged record must be read back exactly once, intact, each appender's in its own order.  TestC11Sched: rapid-generated (scenario, schedule) pairs.  Scenario = family (keyvalue, dag, neuronjson, labelmap, annotation), a deterministic sequential setup on a "
                 "fresh repo, and 2-3 mutation requests that share a target on purpose (or are disjoint controls): keyvalue POST/DELETE key on one key or two keys, "
                 "POST keyvalues batches overlapping / disjoint / against a single POST; version DAG newversion x newversion, branch x newversion, branch x branch with the same / "
                 "different names on a committed root, master child or named-branch head, commit x POST data on one node, new instance x new instance with the same / different "
